@@ -197,7 +197,11 @@ func runC05(c *core.Ctx) {
 	urls := []struct {
 		n string
 		v *string
-	}{{"absent", nil}, {"L1", samlgen.S(locL1)}, {"L2", samlgen.S(locL2)}, {"L3evil", samlgen.S(locL3)}}
+	}{{"absent", nil}, {"L1", samlgen.S(locL1)}, {"L2", samlgen.S(locL2)}, {"L3evil", samlgen.S(locL3)},
+		// near misses of a registered location: extensions, truncation, case, userinfo / host-suffix tricks
+		{"L1+query", samlgen.S(locL1 + "?next=%2Fhome")}, {"L1+suffix", samlgen.S(locL1 + "2")}, {"L1+dotdot", samlgen.S(locL1 + "/../../x")}, {"L1+slash", samlgen.S(locL1 + "/")},
+		{"L1-truncated", samlgen.S(locL1[:len(locL1)-1])}, {"L1-uppercase", samlgen.S(strings.ToUpper(locL1))}, {"L1+fragment", samlgen.S(locL1 + "#x")},
+		{"L1-as-userinfo", samlgen.S(strings.Replace(locL1, "https://", "https://evil.example.net@", 1))}, {"L1+space", samlgen.S(locL1 + " ")}}
 	idxs := []struct {
 		n string
 		v *string
